@@ -77,6 +77,9 @@ type xferSpec struct {
 	PreOpen  bool
 	SSNStart uint16
 	MIDStart uint32
+	// SuspendTimers: after the handshake, every timer expiry may be postponed (one schedule
+	// deviation) until the next packet delivery has been processed.
+	SuspendTimers  bool
 	WriteTimeout   time.Duration // blocking-write mode: SetWriteDeadline before each write
 	ReaderDone     func(m *Sim, sid uint16)
 }
@@ -176,6 +179,9 @@ func xferScenario(spec *xferSpec, res *xferResult) *Scenario {
 			}
 			res.Connected = true
 			m.W.faultsOn = true
+			if spec.SuspendTimers {
+				m.S.SuspendTimers = true
+			}
 			if spec.AfterConnect != nil {
 				spec.AfterConnect(m)
 			}
